@@ -27,6 +27,7 @@ fn collect_deps(
 	resolver: &FileImportResolver,
 	source: &SourcePath,
 	deps: &mut BTreeSet<String>,
+	visited: &mut BTreeSet<String>,
 ) -> Result<(), String> {
 	let contents = resolver
 		.load_file_contents(source)
@@ -49,8 +50,11 @@ fn collect_deps(
 			.resolve_from(source, &&*path)
 			.map_err(|e| format!("{e}"))?;
 		let path_str = format!("{resolved}");
-		if deps.insert(path_str) && expression {
-			collect_deps(resolver, &resolved, deps)?;
+		deps.insert(path_str.clone());
+		// A file may be reached by `importstr`/`importbin` first and by `import` later,
+		// traversal is tracked separately from the listing.
+		if expression && visited.insert(path_str) {
+			collect_deps(resolver, &resolved, deps, visited)?;
 		}
 	}
 
@@ -69,7 +73,9 @@ fn main() {
 		});
 
 	let mut deps = BTreeSet::new();
-	if let Err(e) = collect_deps(&resolver, &source, &mut deps) {
+	let mut visited = BTreeSet::new();
+	visited.insert(format!("{source}"));
+	if let Err(e) = collect_deps(&resolver, &source, &mut deps, &mut visited) {
 		eprintln!("{e}");
 		exit(1);
 	}
